@@ -267,6 +267,16 @@ theorem embedSock_injective : ∀ a b, embedSock a = embedSock b → a = b := by
       simp [embedSock, embed, Except.map] at h
       rw [embedFam_injective _ _ h.1, h.2]
 
+/-- the family's name (`AF_UNIX` …) -/
+def famName : Py.SockFamily → String
+  | .AF_UNIX => "AF_UNIX" | .AF_INET => "AF_INET" | .AF_INET6 => "AF_INET6"
+
+theorem embedSock_famName (r : Except ConvErr (DT.Family × Sum Str (Str × Option Int))) :
+    (embedSock r).map (fun p => (famName p.1, p.2)) = embed (r.map (fun p => (String.ofList (DT.familyStr p.1), p.2))) := by
+  cases r with
+  | error e => rfl
+  | ok v => obtain ⟨f, a⟩ := v; cases f <;> rfl
+
 theorem find1_ge_zero (s : Str) (c : Char) : decide (Py.find1 s c ≥ (0 : Int)) = s.contains c := by
   unfold Py.find1
   by_cases h : s.contains c = true
